@@ -577,8 +577,10 @@ def main(tier, replay):
                "offending_log": lines, "receiver": recv,
                "how_to_replay": "./check C08 --replay <this file>"}
         known = common.match_known(PID, SIG_REFUSED)
-        listed_fixed = any(e.get("signature") == SIG_REFUSED and e.get("status") == "fixed"
-                           for e in json.load(open(os.path.join(VERIF, "known_findings.json"))).get("findings", []))
+        kf = json.load(open(os.path.join(VERIF, "known_findings.json"))).get("findings", [])
+        listed_fixed = any(e.get("property") == PID and e.get("status") == "fixed" and
+                           (e.get("signature") == SIG_REFUSED or "C08-refused-chunk" in str(e.get("witness", "")))
+                           for e in kf)
         if known is not None or listed_fixed:
             v.finding(SIG_REFUSED, obj, obj["what"], tag="refused-chunk")
             scen_state = "known-finding" if known is not None else "regressed"
